@@ -70,6 +70,9 @@ class Run:
         self.model_ok = True
 
     # ---------------------------------------------------------------- F12 classifier (narrow)
+    # terminators of the unchanged tree (end_expr): the known finding is about identifiers followed by a NON-terminator
+    BASE_TERMINATORS = ",)]}\t >\n\r"
+
     def classify_relex(self, case):
         tok = case["token"]
         if tok[0][0] != "Ident":
@@ -77,6 +80,9 @@ class Run:
         text = tok[0][1]
         if case["slice"] != text or text not in self.kwlike:
             return None
+        rest = case["src"].encode("utf-8")[tok[2]:].decode("utf-8", "replace")
+        if rest == "" or rest[0] in self.BASE_TERMINATORS or rest.startswith(".."):
+            return None     # followed by a terminator: the lexer should have produced the keyword / literal itself
         n = len(text.encode())
         want_kind = self.lit_words.get(text, ("Keyword", text))
         rel = case["relexed"]
@@ -282,10 +288,10 @@ def run():
     ex_s = time.time() - t0
     #     seeded sample of the next length
     k = n_ex + 1
-    sample = ["".join(ck.rng.choice(L.ALPHABET) for _ in range(k)) for _ in range(ck.n(30000, 150000))]
+    sample = ["".join(ck.rng.choice(L.ALPHABET) for _ in range(k)) for _ in range(ck.n(15000, 150000))]
     R.stream("sample-next-length", sample)
     # (c) random longer strings
-    R.stream("random", gen_random(ck, ck.n(6000, 60000)))
+    R.stream("random", gen_random(ck, ck.n(4000, 60000)))
 
     ck.coverage["alphabet"] = L.ALPHABET
     ck.coverage["exhaustive"] = {"max_length": n_ex, "strings": sum(len(L.ALPHABET) ** i for i in range(1, n_ex + 1)), "seconds": round(ex_s, 1),
